@@ -48,3 +48,18 @@ impl Migr {
         can_complete_migration(e)
     }
 }
+
+// ---------------- the fee helper on its own ----------------
+/// `collect_fee` is a public library function of its own (the forwarders reach it through
+/// `collect_fee_and_invoke`); this wrapper calls it directly, with either approval strategy.
+#[soroban_sdk::contract]
+pub struct FeeWrap;
+
+#[soroban_sdk::contractimpl]
+impl FeeWrap {
+    #[allow(clippy::too_many_arguments)]
+    pub fn collect(e: &soroban_sdk::Env, token: soroban_sdk::Address, fee: i128, max: i128, exp: u32, user: soroban_sdk::Address, recipient: soroban_sdk::Address, eager: bool) {
+        use stellar_fee_abstraction::FeeAbstractionApproval;
+        stellar_fee_abstraction::collect_fee(e, &token, fee, max, exp, &user, &recipient, if eager { FeeAbstractionApproval::Eager } else { FeeAbstractionApproval::Lazy })
+    }
+}
